@@ -461,6 +461,21 @@ def pred(item, c):
         worst = max(e0, e1, e2, e3, e4, e5, e6)
         return worst <= PTOL * max(1.0, abs(phi)), (f'Jones vectors at phi = {phi!r}, polariser at {th!r}: construction {e0!r}, array vs scalar {e1!r}, '
                                                    f'norms / orthogonality {e2!r}, Malus {e3!r} (array {e4!r}), circular through polariser {e5!r}, QWP {e6!r}')
+    if item == 'stokes':
+        # M(J) S(E) = S(J E) for pure states; the closed Stokes cone is mapped into itself (partially polarised inputs too)
+        J = _l2m(c['J'])
+        E = np.array([complex(*c['E'][0]), complex(*c['E'][1])])
+
+        def S(v):
+            return np.array([abs(v[0]) ** 2 + abs(v[1]) ** 2, abs(v[0]) ** 2 - abs(v[1]) ** 2,
+                             2 * (np.conj(v[0]) * v[1]).real, (1j * (np.conj(v[0]) * v[1] - np.conj(v[1]) * v[0])).real])
+        Mm = P.jones_to_mueller(J, broadcast=c['broadcast'])
+        e1 = float(np.max(np.abs(Mm @ S(E) - S(J @ E)))) / max(1.0, float(S(E)[0]))
+        Sp = S(E) + np.array([c['unpolarised'], 0.0, 0.0, 0.0])
+        out = Mm @ Sp
+        slack = out[0] - math.sqrt(out[1] ** 2 + out[2] ** 2 + out[3] ** 2)
+        ok = e1 <= PTOL * 10 and slack >= -PTOL * 10 * max(1.0, abs(out[0])) and out[0] >= -PTOL
+        return ok, f'M(J) S(E) vs S(J E): {e1!r}; partially polarised input (+{c["unpolarised"]!r} unpolarised): s0 - |s| = {slack!r}'
     if item == 'apply_optic':
         rng = np.random.Generator(np.random.PCG64(c['seed']))
         shp = tuple(c['shape'])
@@ -688,6 +703,15 @@ def correspondence(ctx):
         except Exception as ex:
             ctx.disagree('circular_pol_vector', {'handedness': hand}, f'raised {type(ex).__name__}: {ex}', line)
 
+    # ------------------------------------------------ Mueller acts on Stokes vectors as Jones acts on fields; the Stokes cone is preserved
+    for i in range(ctx.scale(150, 6000) * widen):
+        Ev = np.round(rng.uniform(-1, 1, size=(2, 2)), 3)
+        if i % 5 == 0:
+            Ev[1] = 0.0            # x-polarised
+        _check(ctx, 'stokes', {'J': _cm(rng), 'E': Ev.tolist(), 'broadcast': bool(i % 2),
+                               'unpolarised': float(rng.choice([0.0, round(float(rng.uniform(0, 2)), 3)]))},
+               nontrivial=bool(np.any(Ev != 0)), tag='pure' if i % 2 else 'mixed')
+
     # add_jones_propagation installs exactly that adapter on the propagation module (restored afterwards)
     from prysm import propagation
     saved = {k: getattr(propagation, k) for k in _PROP_ARGS}
@@ -776,6 +800,8 @@ def _small_scope():
         for pupil in ('generic', 'near_symmetric', 'near_symmetric_abs', 'weak', 'weak_offdiag'):
             yield 'adapter', {'func': fn, 'shape': [8, 6], 'seed': 1, 'pupil': pupil}
     yield 'apply_optic', {'shape': [4, 3], 'seed': 1}
+    for bj in basis[:4]:
+        yield 'stokes', {'J': bj, 'E': [[0.6, 0.0], [0.0, 0.8]], 'broadcast': True, 'unpolarised': 0.5}
     for phi in (0.0, 0.7, 2.0):
         for th in (0.0, 0.4):
             yield 'pol_vectors', {'phi': phi, 'theta': th, 'grid': [0.0, 0.3, 1.1]}
@@ -881,7 +907,13 @@ MANIFEST_ENTRY = {
              '(writes per handedness, default, rejection of unknown handedness) are TRANSLATED; PROVED: both have unit intensity and left is orthogonal to right; the generated polariser applied to the '
              'generated linear vector gives (c c\' + s s\')(c, s), i.e. intensity cos^2(theta - phi) with Real.cos (Malus with the library\'s own constructors); circular light through an ideal '
              'polariser keeps half its intensity at every orientation. MODELLED AND COMPARED: both vector constructors and polariser @ vector; on the real code also array angle grids vs scalar calls, '
-             'degrees default, QWP at 45 deg makes a circular state.'),
+             'degrees default, QWP at 45 deg makes a circular state. Second pass: broadcast_kron TRANSLATED as an index map (einsum letters + reshape) and proved equal to the model kron and to Mathlib\'s '
+             'Kronecker product under the column convention of the Mueller theorems; apply_polarization_optic TRANSLATED (entry * field sample) and a uniform optic proved to commute with polarised '
+             'propagation for every homogeneous propagator; facts: the adapter forwards all remaining positional / keyword arguments and appends (2,2) to a component result, add_jones_propagation wraps '
+             'exactly the listed functions. PROVED: M(J) S(E) = S(J E) for all complex J, E (S(E) = U (conj E kron E)); pure Stokes vectors satisfy s0 = |Ex|^2+|Ey|^2, s0^2 = s1^2+s2^2+s3^2, so every '
+             'Jones-derived Mueller matrix maps the boundary of the Stokes cone into itself; Mueller rotation covariance M(R(-t) J R(t)) = M(R(t))^-1 M(J) M(R(t)). Third pass: preservation of the WHOLE closed Stokes cone is PROVED (stokes_cone_full_proved, stokes_cone_preserved): for every complex J and every S with S0 >= 0, |S|^2 <= S0^2 '
+             '(fully or partially polarised), M(J) S is in the cone and S0\'^2 - |S\'|^2 = |det J|^2 (S0^2 - |S|^2) (coherency matrix: S = U vec C, C -> conj(J) C J^T, 4 det C, trace as two PSD forms); '
+             'the stokes family exercises it on the real code (pure and mixed inputs, both kron branches).'),
     'note': ('Trusted: Lean kernel + standard axioms; translator (incl. reading jones_rotation_matrix(-theta) as (cos theta, -sin theta)); '
              'NumPy matmul/einsum/kron/inv; IEEE rounding. Not covered: circular_pol_vector(shape=...) '
              '(raises IndexError - outside the statement); apply_polarization_optic for ndim != 2 (docstring and code disagree; outside the '
